@@ -269,7 +269,7 @@ def run(ctx):
         if any(isinstance(n, ast.Attribute) and n.attr.startswith('apply_') or (isinstance(n, ast.Attribute) and n.attr == '_swap') for n in ast.walk(st)):
             break
     ctx.ob('C13.c', f'{ss.qual}._strat_apply_gate:stabilizer-guard', ok, '' if ok else 'gates without stabilizer effect are no longer refused before dispatch', srel, fn.lineno)
-    start = chains.longest_chain(fn, lambda t: chains.isinstance_classes(t, 'gate') is not None)
+    start = chains.longest_chain(fn, lambda t: chains.isinstance_classes(t) is not None)
     if start is None:
         raise AnalysisError('_strat_apply_gate: dispatch chain vanished')
     WANT = {'XPowGate': ('apply_x', 1), 'YPowGate': ('apply_y', 1), 'ZPowGate': ('apply_z', 1), 'HPowGate': ('apply_h', 1),
@@ -280,7 +280,7 @@ def run(ctx):
             ok = any(isinstance(s, ast.Return) and 'NotImplemented' in ast.unparse(s) for s in body)
             ctx.ob('C13.c', f'{ss.qual}._strat_apply_gate:else-not-implemented', ok, '' if ok else 'unknown gates are silently treated as applied', srel, fn.lineno)
             continue
-        cls = chains.isinstance_classes(test, 'gate')
+        cls = chains.isinstance_classes(test)
         cname = (dotted(cls[0]) or '').split('.')[-1]
         if cname not in WANT:
             continue
@@ -291,7 +291,23 @@ def run(ctx):
         msg = '' if ok else f'{cname} branch does not call {rule}'
         if ok:
             c = calls[0]
-            args = [ast.unparse(a) for a in c.args]
+            G = chains.test_subject(test)
+            # locals standing for the axes of the qubits and for the gate's exponent (whatever they are called)
+            axes_names = {st.targets[0].id for st in ast.walk(fn) if isinstance(st, ast.Assign) and isinstance(st.targets[0], ast.Name)
+                          and isinstance(st.value, ast.Call) and call_name(st.value) == 'get_axes'}
+            exp_names = {st.targets[0].id for st in ast.walk(fn) if isinstance(st, ast.Assign) and isinstance(st.targets[0], ast.Name)
+                         and any(isinstance(x, ast.Constant) and x.value == 'exponent' for x in ast.walk(st.value))
+                         or (isinstance(st, ast.Assign) and isinstance(st.targets[0], ast.Name) and isinstance(st.value, ast.Attribute) and st.value.attr == 'exponent')}
+
+            def norm(a):
+                if isinstance(a, ast.Subscript) and isinstance(a.value, ast.Name) and a.value.id in axes_names and isinstance(a.slice, ast.Constant):
+                    return f'axes[{a.slice.value}]'
+                if isinstance(a, ast.Name) and a.id in exp_names:
+                    return 'exponent'
+                if isinstance(a, ast.Attribute) and isinstance(a.value, ast.Name) and a.value.id == G:
+                    return f'gate.{a.attr}'
+                return ast.unparse(a)
+            args = [norm(a) for a in c.args]
             want_args = [f'axes[{i}]' for i in range(nax)] + ['exponent', 'gate.global_shift']
             if args != want_args:
                 ok = False
